@@ -38,12 +38,24 @@ the check ties to the real compiler line by line on every run):
     (`C12_crash_wide_old_witness`: before repo d31d09e `uint128(5)+uint128(7)`
     crashed the compiler).
 
-Not covered by theorems: consumers other than `return` (oracle only; the
+  * several constants in one program ("as seen by the rest of the program", Model/FoldTable.lean: the table
+    `gen.constants` keyed by the Name, first registered instance, shared or re-widened wires):
+    `C12_const_table_exact_iff` — for any naming function, every constant of every program gets its own wires
+    IFF the naming separates constants of one width with different wires; `C12_decimal_naming_injective` (the
+    naming of the code as it is), `C12_mixed_naming_not_injective` / `C12_mixed_naming_witness` (a naming that
+    spells some values in another base lets one constant be read as another);
+    `C12_constants_see_own_bits` and `C12_multi_item_unaffected_by_company` — for every program of the
+    modelled shape (any number of items, operators, widths, values) an item returns what its own wires give,
+    whatever else the program holds; `C12_multi_rewiden_witness` — the one remaining way company changes a
+    constant (a name registered at two widths, known finding).
+
+Not covered by theorems: consumers other than `return` and `^ x`, `+ x`, `x -` at `x = 0` (oracle only; the
 witnesses `C12_result_type_widened_witness`, `C12_result_minbits_witness` and
 `C12_refold_shr_witness` show how a consumer sees more than the low N bits) and
 an end-to-end text-level statement for negative operand forms / N > 64.
 -/
 import MpcVerif.Proofs.Fold
+import MpcVerif.Proofs.FoldTable
 
 namespace Mpc
 open Mpc.Mpa Mpc.Fold
@@ -953,6 +965,153 @@ theorem C12_rewiden_witness :
     aliasOutputs .uint 8 .int 32 200 200 = .ok (200, 200) ∧
     aliasOutputs .int 7 .uint 32 (-4) 4294967292 = .ok (124, 4294967292) ∧
     aliasOutputs .uint 32 .int 33 4294967295 4294967295 = .ok (4294967295, 8589934591) := by
+  decide +kernel
+
+/-! ## Several constants in one program: "the folded result as seen by the rest of the program"
+
+A constant has no storage of its own; its identity is its Name (`Generator.Constant`), the key of
+`gen.constants`, of `Value.Equal` and of the wire allocator (Model/FoldTable.lean).  The operator theorems
+above say what ONE folded expression is worth; the theorems below say when that value survives the company
+of the other constants of a program — for every program (list of registrations) and every constant in it. -/
+
+/-- **The constant table is exact iff the naming is injective.**  For any kind of constant `α` with a
+registered width `bits` and wires `wires`, and any naming `nm`: in EVERY program every registered constant
+that is used at its registered width is given its own wires, if and only if two constants of one width and
+one name always have the same wires.  (The "only if" direction is the two-constant program `[d, c]`: `c`
+gets `d`'s wires — the role of `C08_defineConstants_needs_distinct_names` for determinism, here for the
+value; fixed finding C12-constant-wires-shared-by-value-name was the same defect across widths.) -/
+theorem C12_const_table_exact_iff {α : Type} (nm : α → String) (bits wires : α → Nat) :
+    (∀ (regs : List α) (c : α), c ∈ regs →
+        seenWires nm bits wires (table nm regs) c (bits c) (wires c) = wires c)
+    ↔ (∀ c d : α, nm c = nm d → bits c = bits d → wires c = wires d) :=
+  const_table_exact_iff nm bits wires
+
+-- non-vacuity: constants = (width, value) named in decimal; the right-hand side holds, so a concrete
+-- three-constant program (the second and third share a width) materialises each with its own value
+example : seenWires (fun c : Nat × Nat => decName c.2) (·.1) (·.2)
+    (table (fun c : Nat × Nat => decName c.2) [(100, 2 ^ 64), (100, 10 ^ 16), (8, 5)]) (100, 10 ^ 16) 100 (10 ^ 16) = 10 ^ 16 :=
+  (C12_const_table_exact_iff (fun c : Nat × Nat => decName c.2) (·.1) (·.2)).mpr
+    (fun _ _ hn _ => decName_injective hn) _ _ (by simp)
+
+/-- The naming of the code as it is — the decimal text of the value, for every value — is injective: on
+non-negative values (`decName`) and on the integer constants of the model (`cvName`, any sign). -/
+theorem C12_decimal_naming_injective :
+    (∀ a b : Nat, decName a = decName b → a = b) ∧
+    (∀ (t t' : TInfo) (v v' : MInt), cvName (.int t v) = cvName (.int t' v') → v.value = v'.value) :=
+  ⟨fun _ _ h => decName_injective h, fun _ _ _ _ h => cvName_int_injective h⟩
+
+example : decName 18446744073709551616 ≠ decName 10000000000000000 :=
+  fun h => absurd (C12_decimal_naming_injective.1 _ _ h) (by decide)
+
+/-- A naming that spells SOME values in another base is not injective: decimal below 2^64 and hexadecimal
+from there on gives 2^64 = 0x10000000000000000 and 10^16 one name — so by `C12_const_table_exact_iff` some
+program sees the one as the other. -/
+theorem C12_mixed_naming_not_injective :
+    ∃ a b : Nat, mixedName a = mixedName b ∧ a ≠ b ∧
+      ¬ (∀ (regs : List (Nat × Nat)) (c : Nat × Nat), c ∈ regs →
+          seenWires (fun c : Nat × Nat => mixedName c.2) (·.1) (·.2)
+            (table (fun c : Nat × Nat => mixedName c.2) regs) c c.1 c.2 = c.2) := by
+  refine ⟨2 ^ 64, 10 ^ 16, mixedName_collision.1, mixedName_collision.2, fun h => ?_⟩
+  have := (C12_const_table_exact_iff (fun c : Nat × Nat => mixedName c.2) (·.1) (·.2)).mp h
+    (100, 2 ^ 64) (100, 10 ^ 16) mixedName_collision.1 rfl
+  exact absurd this (by decide)
+
+/-- An integer constant whose wires are the two's complement image of its printed value at its type's
+width (every constant that is right on its own). -/
+def faithfulConst : CV → Bool
+  | .int t v => constWires t v == wires v.value t.bits
+  | .bool _ => false
+
+/-- **The compiler's table, decimal names.**  In every program whose integer constants are each right on
+their own (`faithfulConst`), a constant whose name is registered at one width only is read by its consumer
+with exactly its own wires — whatever other constants, folded or written, the program holds.  (A name
+registered at two widths goes through `rewiden`: `C12_rewiden_witness`.) -/
+theorem C12_constants_see_own_bits (regs : List CV) (hf : ∀ c ∈ regs, faithfulConst c = true)
+    (c : CV) (hc : c ∈ regs) (hw : ∀ d ∈ regs, cvName d = cvName c → cvBits d = cvBits c) (k : Kind) :
+    cvSeen cvName (table cvName regs) k (cvBits c) c = cvWires c % 2 ^ cvBits c := by
+  obtain ⟨e, hl, hn, he⟩ := lookup_table cvName regs c hc
+  have hbits := hw e he hn
+  have hfe := hf e he
+  have hfc := hf c hc
+  unfold cvSeen seenWires
+  rw [hl]
+  simp only [if_pos hbits]
+  cases c with
+  | bool b => simp [faithfulConst] at hfc
+  | int t v =>
+    cases e with
+    | bool b => simp [faithfulConst] at hfe
+    | int t' v' =>
+      simp only [faithfulConst, beq_iff_eq] at hfe hfc
+      simp only [cvBits] at hbits
+      have hv := cvName_int_injective hn
+      simp only [cvWires, cvBits]
+      rw [hfe, hfc, hv, hbits]
+
+-- non-vacuity: the program of the demonstration (folded 2^64 and written 10^16 at uint100, next to a uint8)
+example :
+    let c1 : CV := .int ⟨.uint, 100, 65⟩ ⟨65, 0#64, some (2 ^ 64)⟩
+    let c2 : CV := .int ⟨.uint, 100, 54⟩ ⟨64, BitVec.ofNat 64 (10 ^ 16), none⟩
+    let c3 : CV := .int ⟨.uint, 8, 3⟩ ⟨32, 5#64, none⟩
+    cvSeen cvName (table cvName [c1, c2, c3]) .uint 100 c2 = 10 ^ 16 := by
+  intro c1 c2 c3
+  have := C12_constants_see_own_bits [c1, c2, c3] (by decide) c2 (by simp) (by decide) .uint
+  simpa [c2, cvBits, cvWires] using this.trans (by decide)
+
+/-- **Company does not matter.**  For EVERY `multi` program (any number of items, any operators, widths, values,
+both program shapes) whose registered constants are each right on their own: an item whose constant's name is
+registered at the item's width only returns, at `x = 0`, exactly what its own wires give — independently of
+all other folded or written constants of the program.  (`multiOutputs` maps `Item.output` over the items; the
+`multi` correspondence lines tie it to the real compiler.) -/
+theorem C12_multi_item_unaffected_by_company (vars : Bool) (items : List Item) (regs : List CV)
+    (hr : registrations vars items = .ok regs) (hf : ∀ c ∈ regs, faithfulConst c = true)
+    (it : Item) (hit : it ∈ items) (s : CV) (hs : it.result = .ok s)
+    (hw : ∀ d ∈ regs, cvName d = cvName s → cvBits d = it.n) :
+    it.output cvName (table cvName regs) = .ok (consumeAt0 it.cons it.n (cvWires s % 2 ^ it.n)) := by
+  have hmem := result_mem_registrations vars items regs hr it s hit hs
+  have hn : cvBits s = it.n := hw s hmem rfl
+  have hw' : ∀ d ∈ regs, cvName d = cvName s → cvBits d = cvBits s := fun d hd h => (hw d hd h).trans hn.symm
+  have := C12_constants_see_own_bits regs hf s hmem hw' it.k
+  rw [hn] at this
+  unfold Item.output
+  rw [hs]
+  simp only [bind, Except.bind, pure, Except.pure, this]
+
+-- non-vacuity: the demonstration program satisfies every hypothesis (for its second item)
+example : ∃ (items : List Item) (regs : List CV) (it : Item) (s : CV),
+    registrations true items = .ok regs ∧ (∀ c ∈ regs, faithfulConst c = true) ∧ it ∈ items ∧ it.result = .ok s ∧
+    (∀ d ∈ regs, cvName d = cvName s → cvBits d = it.n) ∧
+    it.output cvName (table cvName regs) = .ok (10 ^ 16) := by
+  let c0 : CV := .int ⟨.uint, 100, 64⟩ ⟨64, 0#64, some (2 ^ 63)⟩
+  let c1 : CV := .int ⟨.uint, 100, 65⟩ ⟨65, 0#64, some (2 ^ 64)⟩
+  let c2 : CV := .int ⟨.uint, 100, 54⟩ ⟨64, BitVec.ofNat 64 (10 ^ 16), none⟩
+  let it : Item := ⟨none, .uint, 100, 10 ^ 16, 0, .pos, .pos, .add⟩
+  refine ⟨[⟨some .add, .uint, 100, 2 ^ 63, 2 ^ 63, .pos, .pos, .xor⟩, it], [c0, c0, c1, c2], it, c2,
+    by decide +kernel, by decide +kernel, by simp, by decide +kernel, by decide +kernel, by decide +kernel⟩
+
+/-- Program-level witness on the model of the compiler (`multiOutputs`, tied to the real compiler by the
+`multi` correspondence lines): `r0 := (uint100(2^63) + uint100(2^63)) ^ x0; r1 := uint100(10^16) + x1`.
+With the decimal naming both outputs are what the run-time circuit computes; had `Generator.Constant` named
+wide values in hexadecimal (`cvNameMixed`), the written constant 10^16 would be read as the folded sum 2^64. -/
+theorem C12_mixed_naming_witness :
+    let prog : List Item :=
+      [⟨some .add, .uint, 100, 2 ^ 63, 2 ^ 63, .pos, .pos, .xor⟩, ⟨none, .uint, 100, 10 ^ 16, 0, .pos, .pos, .add⟩]
+    multiOutputs cvName false prog = .ok (prog.map Item.runtime) ∧
+    multiOutputs cvName true prog = .ok (prog.map Item.runtime) ∧
+    prog.map Item.runtime = [2 ^ 64, 10 ^ 16] ∧
+    multiOutputs cvNameMixed false prog = .ok [2 ^ 64, 2 ^ 64] ∧
+    multiCause cvNameMixed false prog 1 = .ok "shares-wires-of-another-constant" := by
+  decide +kernel
+
+/-- The remaining way company changes a constant (finding C12-rewidened-constant-sign-from-mpa-size, here
+for values wider than 64 bits, whose own size is their bit length): after `uint100(2^65)`, `int101(2^65)` is
+re-built from its own 66-bit value and sign-extended from bit 65. -/
+theorem C12_multi_rewiden_witness :
+    let prog : List Item :=
+      [⟨none, .uint, 100, 2 ^ 65, 0, .pos, .pos, .xor⟩, ⟨none, .int, 101, 2 ^ 65, 0, .pos, .pos, .add⟩]
+    multiOutputs cvName false prog = .ok [2 ^ 65, 2 ^ 101 - 2 ^ 65] ∧
+    prog.map Item.runtime = [2 ^ 65, 2 ^ 65] ∧
+    multiCause cvName false prog 1 = .ok "rewidened-sign-from-own-size" := by
   decide +kernel
 
 end Mpc
